@@ -58,7 +58,7 @@ pub fn miri_lane(prop: &str, name: &str, seeds: &[u64], many_seeds: Option<&str>
             .stderr(Stdio::piped())
             .spawn()
     };
-    let mut handle = |seed: u64, out: std::process::Output, lr: &mut LaneResult| {
+    let handle = |seed: u64, out: std::process::Output, lr: &mut LaneResult| {
         let so = String::from_utf8_lossy(&out.stdout).to_string();
         let se = String::from_utf8_lossy(&out.stderr).to_string();
         if out.status.success() && so.contains("MINI OK") {
